@@ -338,6 +338,9 @@ pub fn abstract_function(p: &Program) -> Vec<Step> {
                 // T: a proper closed sub-expression of S whose position starts from the
                 // empty annotation and that is not under a rec binder of S that it uses.
                 for (tpath, tscope, fresh_ann) in sites(s, &[]) {
+                    // (A term and the annotations written on it are one sub-expression: the
+                    // numeric / format annotations are consumed where the term is built, so
+                    // `zp \`minimum: 1\`` applied to `num` is not the same program.)
                     if tpath.is_empty() || !fresh_ann {
                         continue;
                     }
